@@ -326,11 +326,4 @@ theorem keyStream_prefix (p q : Bytes) (h : p.take 72 = q.take 72) (hp : 72 ≤ 
     rw [List.getElem?_append_left (by omega), List.getElem?_take_of_lt hi']
   rw [e1, e2, h]
 
-/-- the statement's clause "fails with any other passphrase", for the model -/
-def wrong_passphrase_statement (C : Crypto) : Prop :=
-  ∀ keyBytes pass pass' salt nonce saltFirst text,
-    C.keyFromBytes keyBytes = some keyBytes → salt.length = 16 → nonce.length = nonceLen →
-    pass' ≠ pass → encryptArmorPrivKey C keyBytes pass salt nonce saltFirst = .ok text →
-    ∃ e, unarmorDecryptPrivKey C text pass' = .error e
-
 end GnoVerif.C46
